@@ -793,6 +793,13 @@ func (p *partialCall) CallFromStack(context *Context, n int, scratch []reflect.V
 		vm.Stack = append(vm.Stack, StackFrame{Value: reflect.ValueOf(n + p.n), Expression: b6.Expression{AnyExpression: call}})
 		oargs := vm.Args
 		vm.Args = p.vmArgs
+		for i := range vm.Args {
+			// Lambdas passed as the remaining arguments can use arguments of
+			// lambdas entered since the partial call was made
+			if !vm.Args[i].Value.IsValid() {
+				vm.Args[i] = oargs[i]
+			}
+		}
 		scratch, err := p.c.CallFromStack(context, n+p.n, scratch)
 		vm.Args = oargs
 		return scratch, err
